@@ -1352,5 +1352,67 @@ def rule_cache_entries_leave_when_done(ctx):
 
 
 
+
+def rule_read_sizes_positive(ctx):
+    """C03.k  Every read of the fragmenter asks for at least one byte.  `BytesIO.read(n)` returns everything that is
+    left for a negative n - one fragment of any size - and nothing for n = 0 - a fragment that carries FOLLOWS and is
+    followed by nothing.  On every path of the generator the size of each read is one of the two configured body sizes,
+    such a size minus the length of an empty chunk, or a body size S minus len(chunk) where that chunk was read with
+    size S and the path has established len(chunk) < S; a further constant subtracted from it is not shown to stay
+    positive."""
+    rep = ctx.report
+    ff = ctx.repo.cls('rsocket.frame_fragmenter:FrameFragmenter')
+    it = ff.lookup('__iter__') if ff is not None else None
+    if it is None:
+        raise AnalysisError('C03.k: FrameFragmenter.__iter__ vanished')
+    self_t = ('self',)
+    sizes = set()
+    init = ff.methods['__init__']
+    for n in walk_local(init.node):
+        if isinstance(n, ast.Assign) and isinstance(n.targets[0], ast.Attribute) and 'size' in n.targets[0].attr:
+            sizes.add(n.targets[0].attr)
+    paths = ctx.paths(it, ff, symbolic_compare=True)
+    n_reads = 0
+    bad = {}
+
+    def is_size(t):
+        return isinstance(t, tuple) and t[0] == 'attr' and t[1] == self_t and t[2] in sizes
+
+    for p in paths:
+        for e in p.events:
+            if not (e.kind == 'call' and e.data.get('name') == 'read' and e.data.get('args')):
+                continue
+            n_reads += 1
+            t = strip_epoch(e.data['args'][0].term)
+            ok = False
+            if is_size(t):
+                ok = True
+            elif t[0] == 'op' and t[1] == 'Sub' and is_size(strip_epoch(t[2])):
+                S, sub = strip_epoch(t[2]), strip_epoch(t[3])
+                if sub == ('const', 0):
+                    ok = True
+                elif sub[0] == 'pure' and sub[1] == 'len' and sub[3]:
+                    chunk = strip_epoch(sub[3][0])
+                    asked = strip_epoch(chunk[2][0]) if chunk[0] == 'call' and chunk[1] == 'read' and chunk[2] else None
+                    if asked == S:
+                        shorter = [c for c in p.events if c.kind == 'cond' and c.seq < e.seq and c.data['value'] is True
+                                   and strip_epoch(c.data['key'])[0] == 'lt' and
+                                   strip_epoch(strip_epoch(c.data['key'])[1]) == sub and
+                                   strip_epoch(strip_epoch(c.data['key'])[2]) == S]
+                        ok = bool(shorter)
+            if not ok:
+                bad.setdefault(fmt_term(t)[:120], e)
+    for txt, e in sorted(bad.items()):
+        rep.bad('C03.k', 'FrameFragmenter.__iter__ / read(%s) asks for at least one byte' % txt, it,
+                'the size of this read is not shown to be positive: for a negative size BytesIO.read returns everything '
+                'that is left (one fragment of any size), for 0 nothing (a FOLLOWS fragment with no successor)')
+    rep.require('C03.k', 'reads on the paths of the fragmenter', n_reads, 20)
+    if not bad:
+        rep.ok('C03.k', 'FrameFragmenter.__iter__ / every read asks for at least one byte', it,
+               '%d reads on %d paths: a body size, or a body size minus a chunk known to be shorter' % (
+                   n_reads, len(paths)))
+
+
+
 RULES = [('C03.a', rule_a), ('C03.b', rule_b), ('C03.c', rule_c), ('C03.d', rule_d), ('C03.e', rule_e),
-         ('C03.f', rule_f), ('C03.g', rule_g), ('C03.h', rule_h), ('C03.i', rule_i), ('C03.c', rule_predicate_is_the_mixin), ('C03.j', rule_cache_entries_leave_when_done)]
+         ('C03.f', rule_f), ('C03.g', rule_g), ('C03.h', rule_h), ('C03.i', rule_i), ('C03.c', rule_predicate_is_the_mixin), ('C03.j', rule_cache_entries_leave_when_done), ('C03.k', rule_read_sizes_positive)]
